@@ -2007,6 +2007,9 @@ void XMLDateTime::serialize(XSerializeEngine& serEng)
             serEng<<fTimeZone[i];
         }
 
+        serEng<<fMilliSecond;
+        serEng<<fHasTime;
+
         serEng<<(unsigned long)fStart;
         serEng<<(unsigned long)fEnd;
 
@@ -2023,6 +2026,9 @@ void XMLDateTime::serialize(XSerializeEngine& serEng)
         {
             serEng>>fTimeZone[i];
         }
+
+        serEng>>fMilliSecond;
+        serEng>>fHasTime;
 
         serEng>>(unsigned long&)fStart;
         serEng>>(unsigned long&)fEnd;
